@@ -295,6 +295,20 @@ impl Prop for C02 {
                 Some(Slot::Ok { val: Val::Number(x, _), .. }) => {
                     if !obs::close(*x, want, 1e-12) {
                         v.violation = Some("wrong value".into());
+                    } else {
+                        // the same expression followed by a comment with multi-byte characters, and as
+                        // the second line of a text
+                        for (what, t) in [("followed by a multi-byte comment", format!("{} # yıl İ ŉ 日本", v.input)), ("as the second line of a text", format!("7\n{}", v.input))] {
+                            let r = obs::eval(ctx.calc(&Cfg::default()), "en", &t);
+                            v.evals += 1;
+                            let ok = matches!(r.last(), Some(Slot::Ok { val: Val::Number(y, _), .. }) if obs::close(*y, want, 1e-12));
+                            if !ok {
+                                v.violation = Some(format!("wrong value [context: {}]", what));
+                                v.observed = r.brief();
+                                v.input = t.replace('\n', " \\n ");
+                                break;
+                            }
+                        }
                     }
                 }
                 Some(Slot::Ok { .. }) => v.violation = Some("wrong kind: result is not a number".into()),
